@@ -15,11 +15,17 @@
    one or two evaluation-time variables x boundary constants; relation decided on real evaluations.
 
    Mode = "time": the time-arithmetic family (timestamp or now() +- duration, duration +
-   timestamp, timestamp - timestamp, comparisons), expectation computed by TimeSem.      *)
+   timestamp, timestamp - timestamp, comparisons), expectation computed by TimeSem.
+
+   Mode = "zone": the same forms with a zone-less date string among the operands, under a
+   time zone (a fixed offset) that reaches Reduce through a COMPOSITION of valuers
+   (MultiValuer / NowValuer / MapValuer nested in several ways); the expected node is
+   computed by TimeSem under the zone in force (first non-nil zone, depth-first), the
+   design's valuer methods and its `loc` are model-checked against it.                  *)
 EXTENDS ReduceModel, Json, CSV, IOUtils
 
-CONSTANTS Mode,         \* "expr" | "time" | "chain"
-          ChainSize,    \* "quick" | "thorough": value sets of the systematic depth-2 family
+CONSTANTS Mode,         \* "expr" | "time" | "chain" | "zone"
+          ChainSize,    \* "quick" | "thorough": value sets of the systematic depth-2 family and of the zone family
           MaxDepth,     \* 1 | 2
           WithSem,      \* evaluate EvalSem / ReduceModel on every case and check pass M
           WithText,     \* "all": also emit the case for the text + ParseExpr route where expressible;
@@ -360,10 +366,105 @@ ChainFin == /\ pc = "chainfin"
 \* the chain generator only builds what Typing calls well-typed
 ChainWellTyped == (pc = "done" /\ Mode = "chain") => WellTyped(out.tree, out.binds)
 
+\* ------------------------------------------------------------------ the zone family (Mode = "zone")
+\* A case = one valuer composition (alphabet below) x one zone x one time-arithmetic form with at least one
+\* zone-less date string among its timestamp operands.  BFS: exhaustive over the bounded family.
+AllZones == {0, -300, 330, 840, -720}                    \* UTC, -05:00, +05:30, +14:00, -12:00  (time.FixedZone on the Go side)
+VMap == [k |-> "map"]
+VNow == [k |-> "now", now |-> TRUE]                      \* &NowValuer{Now: now}
+VNowZ(z) == [k |-> "now", now |-> TRUE, off |-> z]       \* &NowValuer{Now: now, Location: z}
+VZoneOnly(z) == [k |-> "now", now |-> FALSE, off |-> z]  \* &NowValuer{Location: z}
+VMulti(ms) == [k |-> "multi", ms |-> ms]
+OtherZone(z) == IF z = 330 THEN -300 ELSE 330
+\* every NowValuer that can be asked for now() carries the same Now, so that only the zone differs
+Comps(z) ==
+  <<[name |-> "flat", map |-> TRUE, vt |-> VMulti(<<VMap, VNowZ(z)>>)],
+    [name |-> "nested", map |-> TRUE, vt |-> VMulti(<<VMulti(<<VMap>>), VNowZ(z)>>)],             \* the inner multiValuer is a ZoneValuer without zone
+    [name |-> "nilzone-first", map |-> TRUE, vt |-> VMulti(<<VNow, VNowZ(z), VMap>>)],
+    [name |-> "zone-first", map |-> TRUE, vt |-> VMulti(<<VNowZ(z), VMap>>)],
+    [name |-> "two-zones", map |-> TRUE, vt |-> VMulti(<<VNowZ(z), VNowZ(OtherZone(z)), VMap>>)],  \* the first one wins
+    [name |-> "bare", map |-> FALSE, vt |-> VNowZ(z)],
+    [name |-> "now-then-zone", map |-> TRUE, vt |-> VMulti(<<VMap, VNow, VZoneOnly(z)>>)],
+    [name |-> "nested-nil-then-zone", map |-> TRUE, vt |-> VMulti(<<VMulti(<<VMap, VNow>>), VNowZ(z)>>)],
+    [name |-> "deep-zone", map |-> TRUE, vt |-> VMulti(<<VMap, VMulti(<<VNow, VMulti(<<VNowZ(z)>>)>>)>>)],
+    [name |-> "two-zones-nested", map |-> TRUE, vt |-> VMulti(<<VMulti(<<VNow>>), VMulti(<<VNowZ(z)>>), VNowZ(OtherZone(z)), VMap>>)]>>
+  \o (IF z = 0 THEN <<[name |-> "no-zone", map |-> TRUE, vt |-> VMulti(<<VMulti(<<VMap>>), VNow>>)]>> ELSE <<>>)   \* nil everywhere: UTC
+CLeap == Civ(2020, 2, 29, 0, 0, 0, 0, 0)
+CEve  == Civ(1969, 12, 31, 23, 59, 59, 999999000, 0)     \* the last microsecond before the epoch (in its zone)
+CEdge == Civ(2262, 4, 11, 23, 47, 16, 0, 0)              \* west of UTC its instant is beyond MaxInt64 ns
+\* the instant of C1 read in zone z, written as a UTC civil record (|z| < 1440)
+C1InZoneUTC(z) == LET m == -z IN IF m >= 0 THEN Civ(2000, 1, 1, m \div 60, m % 60, 0, 0, 0)
+                                 ELSE Civ(1999, 12, 31, (1440 + m) \div 60, (1440 + m) % 60, 0, 0, 0)
+ASSUME \A z \in AllZones : InstantNs(C1InZoneUTC(z)) = ZonedInstant(C1, "dt", z)
+ZOperand(f, x, z) == [f |-> f, zl |-> x[2] # "rfc", ns |-> ToDec(ZonedInstant(x[1], x[2], z)), s |-> Spell(x[1], x[2], x[3])]
+\* timestamp operands without an offset of their own (their instant depends on the zone in force) ...
+ZoneLess(z) ==
+  {ZOperand("str", x, z) : x \in {<<C1, "date", 0>>, <<C1, "dt", 0>>, <<CEve, "dt", 6>>}
+                                 \cup (IF Thorough THEN {<<C2, "dt", 1>>, <<CLeap, "date", 0>>, <<CEdge, "dt", 0>>} ELSE {})}
+  \cup {ZOperand("svar", x, z) : x \in {<<C1, "dt", 0>>} \cup (IF Thorough THEN {<<C1, "date", 0>>} ELSE {})}
+\* ... and operands that are instants whatever the zone: the same wall clock as C1 in UTC, C1's wall clock with the
+\* zone's own offset written out, the instant of C1-in-the-zone written in UTC, now(), a time.Time binding
+ZoneFree(z) ==
+  {ZOperand("str", x, z) : x \in {<<C1, "rfc", 0>>, <<[C1 EXCEPT !.off = z], "rfc", 0>>, <<C1InZoneUTC(z), "rfc", 0>>}
+                                 \cup (IF Thorough THEN {<<C6, "rfc", 0>>} ELSE {})}
+  \cup {[f |-> "now", zl |-> FALSE, ns |-> NowNs, s |-> ""]}
+  \cup (IF Thorough THEN {[f |-> "tvar", zl |-> FALSE, ns |-> ToDec(InstantNs(C1)), s |-> ""]} ELSE {})
+ZoneDurs == {[f |-> "lit", d |-> "3600000000000"], [f |-> "dvar", d |-> "-3600000000000"]}
+            \cup (IF Thorough THEN {[f |-> "lit", d |-> "1"], [f |-> "dvar", d |-> "86400000000000"]} ELSE {})
+ZoneCase(form, op, tree, binds, wantnode, extra) ==
+  LET vl == CompValuer(g.vt, binds, NowNs)
+      mred == MReduce(tree, vl, DevAll) IN
+  [fam |-> "time", form |-> form, op |-> op, tree |-> tree, binds |-> binds, now |-> NowNs, wantnode |-> wantnode,
+   strict |-> TRUE, dmin |-> FALSE, mred |-> mred, midem |-> (MReduce(mred, vl, DevAll) = mred),
+   comp |-> g.comp, vt |-> g.vt, zoff |-> ZoneInForce(g.vt), mloc |-> vl.loc] @@ extra
+ZoneChoose == /\ pc = "zone"
+              /\ \E z \in AllZones : \E i \in 1..Len(Comps(z)) :
+                   g' = [comp |-> Comps(z)[i].name, map |-> Comps(z)[i].map, vt |-> Comps(z)[i].vt, z |-> z]
+              /\ pc' = "zonestep" /\ UNCHANGED out
+\* a composition without a MapValuer binds no variable
+Bindable(binds) == IF g.map THEN TRUE ELSE binds = <<>>          \* IF, not \/: a disjunction would branch the action
+ZoneStep ==
+  /\ pc = "zonestep"
+  /\ LET zf == ZoneInForce(g.vt)                           \* PROPERTY side: the zone the expectation is computed in
+          ZL == ZoneLess(zf)
+          ALL == ZL \cup ZoneFree(zf)
+     IN \E form \in TimeForms :
+       CASE form \in {"T+D", "T-D"} ->
+              \E t \in ZL : \E d \in ZoneDurs :
+                LET op == IF form = "T+D" THEN "+" ELSE "-"
+                    ns == IF op = "+" THEN Add(FromDec(t.ns), FromDec(d.d)) ELSE Sub(FromDec(t.ns), FromDec(d.d))
+                    binds == TBind(t, "a") \o DBind(d, "b")
+                IN /\ op \in RootOps /\ Bindable(binds)
+                   /\ EmitTime(ZoneCase(form, op, Bin(op, TNode(t, "a"), DNode(d, "b")), binds, TimeL(ToDec(ns)), <<>>))
+         [] form = "D+T" ->
+              \E t \in ZL : \E d \in ZoneDurs :
+                LET binds == DBind(d, "a") \o TBind(t, "b") IN
+                /\ "+" \in RootOps /\ Bindable(binds)
+                /\ EmitTime(ZoneCase(form, "+", Bin("+", DNode(d, "a"), TNode(t, "b")), binds,
+                                      TimeL(ToDec(Add(FromDec(t.ns), FromDec(d.d)))), <<>>))
+         [] form = "T-T" ->
+              \E t \in ALL : \E u \in ALL :
+                LET binds == TBind(t, "a") \o TBind(u, "b") IN
+                /\ "-" \in RootOps /\ (IF t.zl THEN TRUE ELSE u.zl) /\ Bindable(binds)
+                /\ Fits64(Sub(FromDec(t.ns), FromDec(u.ns)))
+                /\ EmitTime(ZoneCase(form, "-", Bin("-", TNode(t, "a"), TNode(u, "b")), binds,
+                                      DurL(ToDec(Sub(FromDec(t.ns), FromDec(u.ns)))), <<>>))
+         [] form = "TcmpT" ->
+              \E op \in CmpOps \cap RootOps : \E t \in ALL : \E u \in ALL :
+                LET binds == TBind(t, "a") \o TBind(u, "b")
+                    \* = and != between two strings: by the property's first clause it is the comparison of the two
+                    \* strings (`plain`, what the evaluator says); Reduce folding it to the comparison of the two
+                    \* instants (wantnode) instead is the listed deviation TimeStringEquality
+                    extra == IF op \in EqOps /\ IsString(t) /\ IsString(u)
+                             THEN [plain |-> BoolL(IF op = "=" THEN t.s = u.s ELSE t.s # u.s)] ELSE <<>>
+                IN /\ (IF t.zl THEN TRUE ELSE u.zl) /\ Bindable(binds)
+                   /\ EmitTime(ZoneCase(form, op, Bin(op, TNode(t, "a"), TNode(u, "b")), binds,
+                                         BoolL(CmpResult(op, Cmp(FromDec(t.ns), FromDec(u.ns)))), extra))
+
 Init == /\ g = G0 /\ out = NoOut
-        /\ pc = CASE Mode = "time" -> "time" [] Mode = "chain" -> "chain" [] OTHER -> "op"
+        /\ pc = CASE Mode = "time" -> "time" [] Mode = "chain" -> "chain" [] Mode = "zone" -> "zone" [] OTHER -> "op"
 Next == ChooseOp \/ ChooseCls \/ ChooseSide \/ ChooseTop \/ ChooseVal \/ ChooseForm \/ Fin \/ TimeStep
-        \/ ChainOps \/ ChainVars \/ ChainEvalStep \/ ChainFin \/ Done
+        \/ ChainOps \/ ChainVars \/ ChainEvalStep \/ ChainFin \/ ZoneChoose \/ ZoneStep \/ Done
 Spec == Init /\ [][Next]_vars
 
 \* ------------------------------------------------------------------ pass M invariants
@@ -390,4 +491,15 @@ ModelTimeExact ==
      \/ ~out.strict /\ IsBin(out.mred)
      \/ "SubMinDurationWraps" \in ExcludeDevs /\ DevM_SubMinDurationWraps
 ModelTimeIdempotent == (pc = "done" /\ Mode = "time") => out.midem
+\* zone family: the design's loc (multiValuer.Zone etc. as transcribed) is the property's zone in force ...
+ZoneDone == pc = "done" /\ Mode = "zone"
+ModelZoneInForce == ZoneDone => out.mloc = out.zoff
+\* ... and the design folds to the exact node computed in that zone; = / != between two strings: to the comparison
+\* of the strings, or (named deviation) to the comparison of the instants
+SameNode(a, b) == a.k = b.k /\ a = b
+ModelZoneExact ==
+  ZoneDone => IF "plain" \in DOMAIN out
+              THEN SameNode(out.mred, out.plain) \/ ("TimeStringEquality" \in ExcludeDevs /\ SameNode(out.mred, out.wantnode))
+              ELSE SameNode(out.mred, out.wantnode)
+ModelZoneIdempotent == ZoneDone => out.midem
 =============================================================================
